@@ -121,7 +121,8 @@ Section Tables.
       assert (Hfresh : ~ In (cid x) (map cid pre)).
       { pose proof NoDup_cid as Hn. rewrite Epost, map_app in Hn. cbn in Hn.
         apply NoDup_remove_2 in Hn. intros Hin. apply Hn. apply in_or_app. left. exact Hin. }
-      unfold cstep, corner_step, vmap_add. rewrite I1.
+      unfold cstep, corner_step, vmap_add, g_v2c_add, g_vf_entry, g_f2c_entry, g_f2c_test, g_f2c_store_when_absent.
+      cbn [fst snd]. rewrite I1.
       replace ((0 <=? cv x) && (cv x <? nv)) with true by lia. cbn [bind].
       eexists. split; [reflexivity|]. split; [|split].
       + intros v. rewrite zget_zset. destruct (Z.eqb_spec v (cv x)) as [->|N].
@@ -392,7 +393,7 @@ Proof.
     assert (He : edge_valid (m_nv m) (A, B)).
     { rewrite Forall_forall in Hv. apply Hv. rewrite E. apply in_or_app. right. left. reflexivity. }
     destruct He as (N & RA & RB). cbn [fst snd] in *.
-    replace (A =? B) with false by lia.
+    unfold g_v2v_assert, g_v2v_adds. replace (A =? B) with false by lia. cbn [negb foldM fst snd].
     unfold vmap_add. rewrite (I A). replace ((0 <=? A) && (A <? m_nv m)) with true by lia. cbn [bind].
     rewrite zget_zset_other by congruence. rewrite (I B). replace ((0 <=? B) && (B <? m_nv m)) with true by lia.
     eexists. split; [reflexivity|]. intros v. unfold nbrs. rewrite fold_left_app. cbn [fold_left].
